@@ -19,6 +19,8 @@ use std::str::FromStr;
 use std::sync::Arc;
 use time::Duration;
 
+type FxObsRef = std::rc::Rc<FxObs>;
+
 #[derive(Clone, Debug, Serialize, Deserialize, PartialEq)]
 pub struct Sc {
     pub cal: Calendar,
@@ -27,6 +29,9 @@ pub struct Sc {
     pub today: String,
     pub published_today: bool,
     pub lookups: Vec<String>,
+    /// Several look-ups by ONE loader (the rows of one CSV file share it), empty cache.
+    #[serde(default)]
+    pub sequences: Vec<Vec<String>>,
     pub app_runs: Vec<Vec<AppRow>>,
     pub hash_seed: u64,
 }
@@ -54,6 +59,20 @@ pub fn generate(seed: u64) -> Sc {
                 malformed.push((d.to_string(), r.pick(&MALFORMED_KINDS).to_string()));
             }
         }
+    }
+    let mut sequences = vec![];
+    for _ in 0..r.range(1, 2) {
+        let mut seq: Vec<time::Date> = vec![];
+        let mut cur = *r.pick(&lookups);
+        for _ in 0..r.range(2, 5) {
+            seq.push(cur);
+            cur = match r.weighted(&[5, 2, 2]) {
+                0 => cur + Duration::days(r.range(-4, 4)),
+                1 => cur + Duration::days(*r.pick(&[-8i64, -7, 7, 8])),
+                _ => *r.pick(&lookups),
+            };
+        }
+        sequences.push(seq.iter().map(|d| d.to_string()).collect());
     }
     let mut app_runs = vec![];
     for _ in 0..r.range(1, 3) {
@@ -114,6 +133,7 @@ pub fn generate(seed: u64) -> Sc {
         today: today.to_string(),
         published_today,
         lookups: lookups.iter().map(|d| d.to_string()).collect(),
+        sequences,
         app_runs,
         hash_seed: r.next_u64(),
     }
@@ -202,29 +222,40 @@ impl Engine for C12 {
             }
         };
         st.add("sim.days", 0);
-        for ds in &sc.lookups {
-            let d = pd(ds);
+        let mut processes: Vec<Vec<time::Date>> = sc.lookups.iter().map(|ds| vec![pd(ds)]).collect();
+        for seq in &sc.sequences {
+            processes.push(seq.iter().map(|ds| pd(ds)).collect());
+            st.bump("probe.shared_loader_sequences");
+        }
+        let mut flat: Vec<(time::Date, FxObsRef, usize, usize)> = vec![];
+        for plist in &processes {
             crate::interpose::with_world(|w| w.fs.disk = crate::simfs::Disk::new());
-            let obs = run_fx_process(FxPlan {
+            let obs = std::rc::Rc::new(run_fx_process(FxPlan {
                 data: boc.clone(),
                 today,
                 published_today: pt,
                 force: false,
                 cache: CacheKind::Mem,
                 mem_in: MemState::new(),
-                lookups: vec![d],
+                lookups: plist.clone(),
                 app_rows: None,
                 net_faults: vec![],
                 fs_faults: FsFaultSpec::default(),
                 knobs: Knobs::default(),
                 hash_seed: sc.hash_seed,
-            });
+            }));
             st.bump("sim.processes");
+            for (i, d) in plist.iter().enumerate() {
+                flat.push((*d, obs.clone(), i, plist.len()));
+            }
+        }
+        for (d, obs, li, plen) in flat {
             let expect = ref_lookup(&boc, today, pt, d);
             let got = match &obs.panic {
                 Some(p) => Err(format!("PANIC: {}", p)),
-                None => obs.lookups[0].result.clone(),
+                None => obs.lookups[li].result.clone(),
             };
+            let seq_note = if plen > 1 { format!(" [look-up #{} of {} by one loader: {:?}]", li, plen, obs.lookups.iter().map(|l| l.date.to_string()).collect::<Vec<_>>()) } else { String::new() };
             digest = fnv64_add(digest, show_answer(&got).as_bytes());
             // probes / abstract state
             let crosses_year = matches!(&expect, RefAnswer::Rate { date, .. } if date.year() != d.year()) || (expect == RefAnswer::NoRate && d < today && (d - Duration::days(7)).year() != d.year());
@@ -289,7 +320,7 @@ impl Engine for C12 {
                 (RefAnswer::Rate { date, depth }, Ok((gd, gr))) => {
                     if gd != date {
                         let sig = if *gd > d { "rate of a later day" } else if (d - *gd).whole_days() > 7 { "rate older than 7 days" } else { "wrong day's rate" };
-                        push(Violation { kind: "wrong_rate_date".into(), signature: sig.into(), detail: format!("look-up of {} (today {}, published_today {}): reference model says rate of {} (look-back {}), code returned rate of {} = {}", d, today, pt, date, depth, gd, gr) }, &mut violations);
+                        push(Violation { kind: "wrong_rate_date".into(), signature: sig.into(), detail: format!("look-up of {} (today {}, published_today {}): reference model says rate of {} (look-back {}), code returned rate of {} = {}{}", d, today, pt, date, depth, gd, gr, seq_note) }, &mut violations);
                     } else if !rate_matches(&boc, *date, gr, malformed_cfg) {
                         let sig = if gr.is_zero() { "zero placeholder returned" } else if date.year() >= 2017 { "daily observation not inverted correctly" } else { "noon observation altered" };
                         push(Violation { kind: "wrong_rate_value".into(), signature: sig.into(), detail: format!("look-up of {}: rate of {} published as v={} ({}), code returned {}", d, date, boc.published[date], series_for_year(date.year()), gr) }, &mut violations);
@@ -312,12 +343,12 @@ impl Engine for C12 {
                     } else {
                         "rate where none exists"
                     };
-                    push(Violation { kind: "rate_where_none_exists".into(), signature: sig.into(), detail: format!("look-up of {} (today {}, published_today {}): reference model says no usable rate, code returned rate of {} = {}", d, today, pt, gd, gr) }, &mut violations);
+                    push(Violation { kind: "rate_where_none_exists".into(), signature: sig.into(), detail: format!("look-up of {} (today {}, published_today {}): reference model says no usable rate, code returned rate of {} = {}{}", d, today, pt, gd, gr, seq_note) }, &mut violations);
                 }
                 (RefAnswer::Rate { date, depth }, Err(msg)) => {
                     // With damaged observations a stricter implementation may legitimately refuse.
                     if !malformed_cfg {
-                        push(Violation { kind: "error_where_rate_exists".into(), signature: format!("error although a rate exists (look-back {})", if *depth == 0 { "0".to_string() } else { "1-7".to_string() }), detail: format!("look-up of {} (today {}, published_today {}): reference model says rate of {} (look-back {}), code failed: {}", d, today, pt, date, depth, msg.lines().next().unwrap_or("")) }, &mut violations);
+                        push(Violation { kind: "error_where_rate_exists".into(), signature: format!("error although a rate exists (look-back {})", if *depth == 0 { "0".to_string() } else { "1-7".to_string() }), detail: format!("look-up of {} (today {}, published_today {}): reference model says rate of {} (look-back {}), code failed: {}{}", d, today, pt, date, depth, msg.lines().next().unwrap_or(""), seq_note) }, &mut violations);
                     } else {
                         st.bump("probe.malformed_cfg_refused");
                     }
@@ -455,10 +486,30 @@ impl Engine for C12 {
             s.lookups.clear();
             c.push(s);
         }
+        if !sc.sequences.is_empty() {
+            let mut s = sc.clone();
+            s.sequences.clear();
+            c.push(s);
+            for i in 0..sc.sequences.len() {
+                let mut s = sc.clone();
+                s.sequences = vec![sc.sequences[i].clone()];
+                s.lookups.clear();
+                s.app_runs.clear();
+                c.push(s);
+                for j in 0..sc.sequences[i].len() {
+                    if sc.sequences[i].len() > 1 {
+                        let mut s = sc.clone();
+                        s.sequences[i].remove(j);
+                        c.push(s);
+                    }
+                }
+            }
+        }
         for i in 0..sc.lookups.len() {
             let mut s = sc.clone();
             s.lookups = vec![sc.lookups[i].clone()];
             s.app_runs.clear();
+            s.sequences.clear();
             c.push(s);
         }
         for i in 0..sc.app_runs.len() {
@@ -522,14 +573,14 @@ impl Engine for C12 {
     }
 
     fn sample(&self, sc: &Sc) -> Value {
-        json!({"calendar": sc.cal, "today": sc.today, "published_today": sc.published_today, "malformed": sc.malformed, "lookups": sc.lookups,
+        json!({"calendar": sc.cal, "today": sc.today, "published_today": sc.published_today, "malformed": sc.malformed, "lookups": sc.lookups, "shared_loader_sequences": sc.sequences,
                "app_runs": sc.app_runs.iter().map(|r| app_csv(r)).collect::<Vec<_>>() })
     }
     fn level(&self) -> &'static str {
         "exploration"
     }
     fn rule(&self) -> String {
-        "Per simulation one seeded publication calendar over 2-4 years (weekends, fixed+random holidays, 0-3 gaps of 3-11 days placed at random / across a year end / in early January; some spans straddle the 2016/2017 noon->daily seam; every published value unique with >=5 decimals), a simulated today, a published-today flag, 4-14 look-up dates biased to today-9..today+2, gap ends +-, Jan 1-8 / Dec 24-31, the seam, plus uniform; each look-up runs the real RateLoader/JsonRemoteRateLoader in a fresh simulated process with an empty cache against SimBoC, plus 1-3 application runs (CSV rows with USD/CAD/other currency, with/without explicit rate, separate commission currency) through run_acb_app_to_delta_models. One fifth of simulations damage 1-4 observations (obs_malformed). Oracle: reference model (rate of the date if in the snapshot; else error if date >= today; else first present of d-1..d-7; else error), exact for noon values, |rate*v-1|<1e-20 for daily. evaluations = simulations; distinct_nontrivial = distinct simulations with at least one look-up that needed a look-back or had no usable rate.".to_string()
+        "Per simulation one seeded publication calendar over 2-4 years (weekends, fixed+random holidays, 0-3 gaps of 3-11 days placed at random / across a year end / in early January; some spans straddle the 2016/2017 noon->daily seam; every published value unique with >=5 decimals), a simulated today, a published-today flag, 4-14 look-up dates biased to today-9..today+2, gap ends +-, Jan 1-8 / Dec 24-31, the seam, plus uniform; each look-up runs the real RateLoader/JsonRemoteRateLoader in a fresh simulated process with an empty cache against SimBoC; 1-2 sequences of 2-5 nearby dates (steps of +-1..4 or +-7/8 days) are looked up by ONE loader in one process (rows of a CSV share a loader), each answer still compared with the model; plus 1-3 application runs (CSV rows with USD/CAD/other currency, with/without explicit rate, separate commission currency) through run_acb_app_to_delta_models. One fifth of simulations damage 1-4 observations (obs_malformed). Oracle: reference model (rate of the date if in the snapshot; else error if date >= today; else first present of d-1..d-7; else error), exact for noon values, |rate*v-1|<1e-20 for daily. evaluations = simulations; distinct_nontrivial = distinct simulations with at least one look-up that needed a look-back or had no usable rate.".to_string()
     }
     fn state_measure(&self) -> String {
         "distinct (look-back depth 0..7|none, crosses year, series, relation of date to today, malformed config) tuples".to_string()
@@ -550,6 +601,7 @@ impl Engine for C12 {
     }
     fn required_probes(&self, _tier: Tier) -> Vec<&'static str> {
         vec![
+            "probe.shared_loader_sequences",
             "probe.lookback_depth_0",
             "probe.lookback_depth_1",
             "probe.lookback_depth_3",
